@@ -118,7 +118,7 @@ def sched_property(out, info, tier, seed, pid, kinds, monitor, gen_opts=None, nc
                fine=f.get('fine', False), rev=f.get('rev', False), script=rec.get('schedule'), instant=f.get('instant', ()))
     # re-confirm the witnesses of the listed known findings of this property
     for fid, fnd in kf.items():
-        if fnd.get('status') != 'known' or not fnd.get('witness'): continue
+        if fnd.get('status') != 'known' or not isinstance(fnd.get('witness'), str): continue
         wp = os.path.join(common.VERIF, fnd['witness'])
         if not os.path.exists(wp) or model is None or monitor is None: continue
         rec = json.load(open(wp)); f = rec.get('flags', {})
